@@ -1,5 +1,7 @@
 import RimeModel.Session.WellFormed
 import RimeModel.Session.ComposeOK
+import RimeModel.Session.PunctComposeOK
+import RimeModel.Session.Shape
 import RimeModel.Session.Utf8
 /-!
 C02 — the context reported after any call is well-formed.  Property theorems only.
@@ -34,6 +36,38 @@ theorem wellformed_reachable_concrete (env : Env) (hps : 0 < env.pageSize) (cfg 
     (henv : env.recompose = compose cfg) (c0 : Ctx) (h0 : Fresh c0) (ops : List Op) :
     (view env (runOps env c0 ops)).WellFormed :=
   wellformed_reachable env hps (by rw [henv]; exact compose_spec cfg) c0 h0 ops
+
+/-- **C02 with the `full_shape` option in play.**  A schema is a pair of environments (half / full shape: the punctuation
+components re-read the option before every use, the shape formatter and the shape post-processor act only when it is on);
+every call runs in the environment of the value the option has once the call has stored its own change
+(`runOpsS`, Session/Shape.lean).  If both recomposition functions satisfy `ComposeSpec`, every finite API history from a
+fresh session leaves a well-formed view — whatever the processor list (speller, punctuator, selector, navigator, editors)
+and whatever the punctuation definitions. -/
+theorem wellformed_reachable_shaped (envOf : Bool → Env) (hps : ∀ b, 0 < (envOf b).pageSize)
+    (hrc : ∀ b, ComposeSpec (envOf b).recompose) (c0 : Ctx) (h0 : Fresh c0) (ops : List Op) (b : Bool) :
+    (view (envOf b) (runOpsS envOf c0 ops)).WellFormed :=
+  view_wf (hps b) (runOpsS_inv hrc ops (fresh_inv h0))
+
+/-- **C02 for schemas with the punctuation components.**  `ComposeSpec` is discharged for the port of
+`ConcreteEngine::Compose` with abc_segmentor, punct_segmentor, fallback_segmentor, punct_translator + any translation
+oracle and any filter (`composeP`), for any punctuation mapping in either shape. -/
+theorem wellformed_reachable_punct (envOf : Bool → Env) (hps : ∀ b, 0 < (envOf b).pageSize) (cfg : Bool → PSegCfg)
+    (henv : ∀ b, (envOf b).recompose = composeP (cfg b)) (c0 : Ctx) (h0 : Fresh c0) (ops : List Op) (b : Bool) :
+    (view (envOf b) (runOpsS envOf c0 ops)).WellFormed :=
+  wellformed_reachable_shaped envOf hps (fun b => by rw [henv b]; exact composeP_spec (cfg b)) c0 h0 ops b
+
+/-- non-vacuity: the punctuator at work — `/` is a list of three alternatives, pressed twice: the second press moves
+the highlight to the second alternative of the same one-key segment; `,` then confirms and commits both -/
+example :
+    let m : List (UInt8 × PunctDef) := [(47, .alt [[0xe3, 0x80, 0x81], [47], [0xc3, 0xb7]]), (44, .commit [0xef, 0xbc, 0x8c])]
+    let cfg : PSegCfg := { alphabet := [97], initials := [97], finals := [], delimiters := [], translate := fun _ _ => [], punct := m }
+    let env : Env := { pageSize := 5, alphabet := [97], initials := [97], processors := [.speller, .punctuator, .selector, .expressEditor],
+                       punct := { half := m }, recompose := composeP cfg }
+    let c := runOpsS (fun _ => env) { options := [("_auto_commit", true)] } [.key 47 0, .key 47 0]
+    let v := view env c
+    v.composing = true ∧ v.preview = [47] ∧ (v.menu.map (·.highlighted)) = some 1 ∧ (v.menu.map (·.cands.length)) = some 3 ∧
+    (runOpsS (fun _ => env) c [.key 44 0]).commitBuf = [47, 0xef, 0xbc, 0x8c] := by
+  decide
 
 /-- the page number reported is the one containing the highlighted candidate, and the highlighted
 entry of the page is the selected candidate of the last segment -/
